@@ -460,7 +460,7 @@ func Closure(c Cfg, keepTrace bool) *Res {
 			for j := uint64(0); j <= numEl+2; j++ {
 				js = append(js, uint32(j))
 			}
-			js = append(js, 1<<31, 1<<32-1)
+			js = append(js, 1<<16, 1<<24, 1<<30, 1<<31-1, 1<<31, 1<<31+1, uint32(1<<32-numEl), 1<<32-2, 1<<32-1)
 		} else {
 			js = BoundaryTargets(i, c.H, 1<<62)
 		}
